@@ -117,6 +117,28 @@ def files_for(prop):
     return sorted(glob.glob(os.path.join(VERIF, "scenarios", prop, "*.scn")))
 
 
+GRID_PROPS = {"C09": ("parse panic", "error location"), "C10": ("bind/iterate panic",), "C11": ("bind/iterate panic",)}
+
+
+def run_grid(prop):
+    """bounded exhaustive grid (replay --grid): every text of up to 3 (thorough tier: 4) alphabet items, alone and behind the
+    header `A B`: no panic in parsing / binding / static iteration, error locations inside the text. Returns
+    (n_texts, failure-entry or None)."""
+    depth = 4 if os.environ.get("VERIF_TIER") == "thorough" else 3
+    alpha = os.path.join(VERIF, "scenarios", "C09", "alphabet.txt")
+    exe = os.path.join(run_scenario.TARGET, "release", "verif_replay")
+    import subprocess
+    try:
+        p = subprocess.run([exe, "--grid", alpha, str(depth)], capture_output=True, text=True, timeout=600)
+        g = json.loads((p.stdout.strip().splitlines() or ["{}"])[-1])
+    except Exception as e:
+        return 0, (alpha, [f"grid did not run: {e}"], {})
+    mine = [f for f in g.get("failures", []) if f.startswith(GRID_PROPS[prop])]
+    if mine:
+        return g.get("checked", 0), (alpha, mine[:5], dict(grid=g))
+    return g.get("checked", 0), None
+
+
 def run_property(prop):
     """returns (n_run, [ (file, mismatches, observed) ])"""
     run_scenario.build()
@@ -126,7 +148,13 @@ def run_property(prop):
         bad, out = check(f)
         if bad:
             fails.append((f, bad, out))
-    return len(fs), fails
+    n = len(fs)
+    if prop in GRID_PROPS:
+        ng, gf = run_grid(prop)
+        n += ng
+        if gf:
+            fails.append(gf)
+    return n, fails
 
 
 if __name__ == "__main__":
